@@ -115,6 +115,16 @@ ArcFields(f) ==
            n == IF count = Huge \/ count > 8 THEN 8 ELSE count
        IN { 32 + ac } \cup UNION { { 32 + ai + 16 * (i - 1) + k : k \in {4, 8, 12} } : i \in 1..n }
 
+\* consistent cuts of the data region of a bin-family image: the last k bytes of the data region are removed and
+\* the header totals adjusted, so the header check passes and the readers layered on the archive (text walk, aset,
+\* asset, arc records) meet data that ends in the middle of a string, a code unit or a record
+DataCut(f, e, k) ==
+  LET ds == Rd32(f, 4, e) IN
+  U32(Len(f) - k, e) \o U32(ds - k, e) \o SubSeq(f, 9, 32) \o SubSeq(f, 33, 32 + ds - k) \o SubSeq(f, 33 + ds, Len(f))
+DataCuts(f, e) ==
+  IF ~HeaderOK(f, e) THEN {}
+  ELSE LET ds == Rd32(f, 4, e) IN { DataCut(f, e, k) : k \in 1..(IF ds < 14 THEN ds ELSE 14) }
+
 \* family: "bin_le" | "bin_be" | "pack" | "arc"
 Mutations(f, family) ==
   LET e == IF family = "bin_be" \/ family = "pack" THEN "be" ELSE "le"
